@@ -1,6 +1,7 @@
 import KoordVerif.Model.C09
 import KoordVerif.Model.C09Plugin
 import KoordVerif.Model.C09Reconcile
+import KoordVerif.Model.C09Strategy
 import KoordVerif.Generated.C09
 /-
 Tie lemmas: the priority bands / default values the model's class resolution uses are those of
@@ -89,5 +90,33 @@ theorem tie_ratio_diff_epsilon : C09.ratioDiffEpsilon = "0.01" := by decide
 /-- zone withdrawal (`preUpdateZones`): the early return of prepareForNodeResourceTopology is not taken when the batch
     items are Reset, and the reset branch of UpdateNRTZoneListIfNeeded writes the zeroed entry back (437c681). -/
 theorem tie_zone_withdrawal : C09.nrtEarlyReturnChecksResets = true ∧ C09.zoneResetWritesBack = true := by decide
+
+/-- (extension 4) every pointer field of configuration.ColocationStrategy is cloned by the generated DeepCopyInto, so the
+    strategy `GetCfgCopy` / `GetNodeColocationStrategy` hand to a reconcile shares no cell with the config cache and the
+    JSON merge of a node's override cannot write into the cluster strategy (Model/C09Strategy.lean treats the cache as a
+    value; `reconcile_keeps_cache`).  A stale generated file (a field added without re-running deepcopy-gen) breaks this. -/
+theorem tie_strategy_deepcopy_complete :
+    C09.colocationStrategyDeepCopyClones = C09.colocationStrategyPointerFields ∧
+    C09.colocationStrategyPointerFields.contains "BatchCPUThresholdPercent" = true ∧
+    C09.colocationStrategyPointerFields.contains "BatchMemoryThresholdPercent" = true := by decide
+
+/-- (extension 4) the integer defaults of `defaultV` -/
+theorem tie_strategy_defaults :
+    fld defaultV 1 = some C09.defaultCPUReclaimThresholdPercent ∧ fld defaultV 2 = some C09.defaultMemoryReclaimThresholdPercent ∧
+    fld defaultV 5 = some C09.defaultDegradeTimeMinutes ∧ fld defaultV 6 = some C09.defaultUpdateTimeThresholdSeconds ∧
+    fld defaultV 11 = some C09.defaultMidCPUThresholdPercent ∧ fld defaultV 12 = some C09.defaultMidMemoryThresholdPercent ∧
+    fld defaultV 13 = some C09.defaultMidStaticCPUReservedPercent ∧ fld defaultV 14 = some C09.defaultMidStaticMemoryReservedPercent ∧
+    fld defaultV 15 = some C09.defaultMidUnallocatedPercent := by decide
+
+/-- (extension 4) the comparisons of IsColocationStrategyValid on the modelled fields are those of `validV`
+    (>= 0: reclaim thresholds, mid static reserved, batch caps; > 0: degrade time, update interval, diff threshold;
+    0..100: mid thresholds, mid unallocated); the only other checks concern the two unmodelled metric-interval fields. -/
+theorem tie_strategy_valid_conds :
+    C09.strategyValidConds =
+      ["MetricAggregateDurationSeconds>0", "MetricReportIntervalSeconds>0", "CPUReclaimThresholdPercent>=0", "MidStaticCPUReservedPercent>=0", "MemoryReclaimThresholdPercent>=0",
+       "MidStaticMemoryReservedPercent>=0", "DegradeTimeMinutes>0", "UpdateTimeThresholdSeconds>0", "ResourceDiffThreshold>0",
+       "MidCPUThresholdPercent>=0", "MidCPUThresholdPercent<=100", "MidMemoryThresholdPercent>=0", "MidMemoryThresholdPercent<=100",
+       "MidUnallocatedPercent>=0", "MidUnallocatedPercent<=100", "BatchCPUThresholdPercent>=0", "BatchMemoryThresholdPercent>=0"] := by
+  decide
 
 end KoordVerif.C09
